@@ -964,7 +964,11 @@ def _drive_decision(case):
         elements.Transceiver.__call__ = lambda self, si: si
     try:
         with AmpTracer(E.net) as tracer:
-            prop, rev, revprop = rq.compute_path_with_disjunction(E.net, E.eq, rqs, pths)
+            try:
+                prop, rev, revprop = rq.compute_path_with_disjunction(E.net, E.eq, rqs, pths)
+            except Exception as e:
+                e._under_test = True
+                raise
         obs['amp_traces'] = tracer.result()
     finally:
         elements.Transceiver.calc_penalties = orig_cp
@@ -990,8 +994,9 @@ def _drive_decision(case):
         fits = [m for m in lib if float(m['min_spacing']) <= pr.spacing]
         its = sorted({(m['baud_rate'], m['equalization_offset_db']) for m in fits}, reverse=True)
         obs['fresh'] = [[br, off, fresh_propagation(E, path, pr, br, off, roll)] for (br, off) in its]
-        if case['bidir']:
-            # the reverse direction is propagated with the request as the selection left it (roll_off is not set by it)
+        if case['bidir'] and req.baud_rate is not None:
+            # the code only propagates Z->A when a mode was selected or last explored (baud_rate set); it does so with the
+            # request as the selection left it (roll-off included)
             obs['fresh_rev'] = {k: fresh_propagation(E, rpath, pr, m['baud_rate'], m['equalization_offset_db'], req.roll_off)
                                 for k, m in enumerate(lib) if float(m['min_spacing']) <= pr.spacing}
     else:
@@ -1348,8 +1353,29 @@ MATCHERS = {}
 
 
 # ------------------------------------------------------------------ run
+def crash_record(e):
+    """an exception as an observation (a worker must never kill the pool)"""
+    import traceback
+    tb = traceback.extract_tb(e.__traceback__)
+    inner = tb[-1] if tb else None
+    return {'type': type(e).__name__, 'message': str(e)[:400],
+            'where': f'{inner.filename}:{inner.lineno} {inner.name}' if inner else '',
+            'in_gnpy': bool(getattr(e, '_under_test', False)),       # raised by the call under test, not by a reference run
+            'traceback': ''.join(traceback.format_exception(type(e), e, e.__traceback__))[-3000:]}
+
+
+def report_crash(ctx, case, crash):
+    """an exception out of the code under test on a generated input is neither a verdict nor a refusal: a violation with
+    its input; an exception raised by the harness itself is reported the same way (never swallowed)"""
+    key = 'exception_instead_of_result' if crash['in_gnpy'] else 'harness_exception'
+    ctx.violation(key, f"{crash['type']}: {crash['message']} at {crash['where']}", case, detail=crash)
+
+
 def _drive_worker(case):
-    obs = drive_decision(case)
+    try:
+        obs = drive_decision(case)
+    except Exception as e:                                             # noqa: returned as an observation
+        obs = {'crash': crash_record(e)}
     return case.get('modes_final'), obs
 
 
@@ -1425,6 +1451,11 @@ def run(ctx):
             meta.append((c, impl, None))
         else:
             obs = driven[id(c)]
+            if obs.get('crash'):
+                ctx.case(case_public(c), False)
+                ctx.count('crashes')
+                report_crash(ctx, case_public(c), obs['crash'])
+                continue
             if obs.get('exc'):
                 # malformed stream: a spacing below the mode's min_spacing is refused at load
                 ctx.count('refused_' + obs['exc'])
